@@ -25,4 +25,67 @@ PROPS = {
         "assumptions": ["errors.Unwrap of error types other than the package's decorators and single-%w fmt.Errorf is a base error (joined errors, custom Unwrap are outside the model)"],
         "trusted": ["Go fmt/errors wrapping semantics as written into coq/Wire/Errors.v (compared on every case)"],
     },
+    'C01': {
+        "projection": 'log of one connection (messages, callback events with arguments, end of connection) after sorting ParameterStatus blocks',
+        "rule": 'startup parameter sets (incl. missing user/database, duplicates) x validator {password-compare, accept, reject, fail} x password-message variants (correct, wrong, empty, NUL-less, length 0/3, oversized, every client type byte, truncated at every byte) x continuation (none, Query, Parse/Bind/Execute/Sync, Terminate, garbage, second password) x delivery (lock-step, pipelined in one segment, one byte per read); plus random credentials; non-trivial = client sent more than the startup packet; distinct = by configuration and byte stream' + "; non-trivial = the client sent more than its first packet or a callback ran; distinct = by configuration and client byte stream",
+        "exhaustive": False,
+        "assumptions": ["user callbacks are scripts (handler programs, parser table, validator/middleware/hook outcomes); transport writes succeed while the connection is open; no concurrent Close"],
+        "trusted": ['pgx v5.4.3 pgtype.Map.Encode modelled by coq/Wire/Codec.v for bool/int2/4/8/text/varchar/bytea and the three NULL kinds (compared on every row of every case)'],
+    },
+    'C05': {
+        "projection": 'per-message log with Consume markers (lock-step): messages, parser/statement callbacks, every DataWriter return value and Written() value',
+        "rule": 'corpus (pinned counter defect, every Unicode-blank and near-blank query), ALL handler programs of length <= 3 (quick) / 5 (thorough) over {good row, wrong-arity row, unencodable row, Written, Empty, Complete} x {0,2 columns} x {stop-on-error, continue} (exhaustive), random multi-statement queries with decorated errors and all modelled value types' + "; non-trivial = the client sent more than its first packet or a callback ran; distinct = by configuration and client byte stream",
+        "exhaustive": True,
+        "assumptions": ["user callbacks are scripts (handler programs, parser table, validator/middleware/hook outcomes); transport writes succeed while the connection is open; no concurrent Close"],
+        "trusted": ['pgx v5.4.3 pgtype.Map.Encode modelled by coq/Wire/Codec.v for bool/int2/4/8/text/varchar/bytea and the three NULL kinds (compared on every row of every case)'],
+    },
+    'C06': {
+        "projection": 'per-message log with Consume markers (lock-step delivery: message k+1 is sent only after the server went idle after message k)',
+        "rule": 'corpus (the pinned witnesses: failing Parse + Bind/Execute/Sync, Bind to unknown statement, Execute of unknown portal, oversized Parse/Sync), ALL histories of length 3 (quick) / 4 (thorough) over a 22-symbol alphabet (Parse ok/fail/multi, Bind known/unknown, Describe S/P known/unknown, Execute ok/unknown, Close, Flush, Sync, Query ok/fail, oversized P/Q/S, unknown type) (exhaustive), random histories of length 3..14 over random configurations' + "; non-trivial = the client sent more than its first packet or a callback ran; distinct = by configuration and client byte stream",
+        "exhaustive": True,
+        "assumptions": ["user callbacks are scripts (handler programs, parser table, validator/middleware/hook outcomes); transport writes succeed while the connection is open; no concurrent Close"],
+        "trusted": ['pgx v5.4.3 pgtype.Map.Encode modelled by coq/Wire/Codec.v for bool/int2/4/8/text/varchar/bytea and the three NULL kinds (compared on every row of every case)'],
+    },
+    'C07': {
+        "projection": 'per-message log with Consume markers; statement identity and parameters of every execution',
+        "rule": 'corpus, ALL histories of length 3 (quick) / 4 (thorough) over {Parse x 2 names x 2 queries, Bind x 2 portals x 2 statements, Describe S/P, Execute, Close S/P x 2 names, Sync} followed by probes of both names (exhaustive), random histories of length 4..17' + "; non-trivial = the client sent more than its first packet or a callback ran; distinct = by configuration and client byte stream",
+        "exhaustive": True,
+        "assumptions": ["user callbacks are scripts (handler programs, parser table, validator/middleware/hook outcomes); transport writes succeed while the connection is open; no concurrent Close"],
+        "trusted": ['pgx v5.4.3 pgtype.Map.Encode modelled by coq/Wire/Codec.v for bool/int2/4/8/text/varchar/bytea and the three NULL kinds (compared on every row of every case)'],
+    },
+    'C08': {
+        "projection": 'per-message log with Consume markers; format tag and value (or NULL) of every parameter seen by the handler; RowDescription formats',
+        "rule": 'parameter counts {0,1,2,3,17; thorough: 300, 65535} x NULL position x parameter-format list {none, [1], [0], positional, wrong count} x columns {0,1,3} x result-format list (same five kinds); values: empty, NUL-containing, long; inadmissible codes; random' + "; non-trivial = the client sent more than its first packet or a callback ran; distinct = by configuration and client byte stream",
+        "exhaustive": False,
+        "assumptions": ["user callbacks are scripts (handler programs, parser table, validator/middleware/hook outcomes); transport writes succeed while the connection is open; no concurrent Close"],
+        "trusted": ['pgx v5.4.3 pgtype.Map.Encode modelled by coq/Wire/Codec.v for bool/int2/4/8/text/varchar/bytea and the three NULL kinds (compared on every row of every case)'],
+    },
+    'C10': {
+        "projection": 'per-message log with Consume markers',
+        "rule": 'limits {1,2,5,16,40} (thorough: 1..40, 4095, 4096, 4097, default via 0 and -1 at 2^24 and 2^24+1) x message type x every declared body length 0..L+70 x position in a 3-message session (exhaustive per limit), declared lengths 0..3, 2^31-1, 2^31, 2^32-1 with truncated input, skipped region split across reads, oversize during startup and authentication' + "; non-trivial = the client sent more than its first packet or a callback ran; distinct = by configuration and client byte stream",
+        "exhaustive": True,
+        "assumptions": ["user callbacks are scripts (handler programs, parser table, validator/middleware/hook outcomes); transport writes succeed while the connection is open; no concurrent Close"],
+        "trusted": ['pgx v5.4.3 pgtype.Map.Encode modelled by coq/Wire/Codec.v for bool/int2/4/8/text/varchar/bytea and the three NULL kinds (compared on every row of every case)'],
+    },
+    'C12': {
+        "projection": 'log of one connection; ParameterStatus block compared as a set',
+        "rule": 'startup bodies from 7 pair sets (duplicates, empty values, no user) x 4 configurations (keys colliding with the forced ones, version set/unset, middleware) delivered at once and byte-wise, junk after the terminator, body cut at every position (missing terminator/value), CancelRequest first / after SSLRequest+N, repeated SSLRequest, short/oversized/bad-length packets, random pair lists' + "; non-trivial = the client sent more than its first packet or a callback ran; distinct = by configuration and client byte stream",
+        "exhaustive": False,
+        "assumptions": ["user callbacks are scripts (handler programs, parser table, validator/middleware/hook outcomes); transport writes succeed while the connection is open; no concurrent Close"],
+        "trusted": ['pgx v5.4.3 pgtype.Map.Encode modelled by coq/Wire/Codec.v for bool/int2/4/8/text/varchar/bytea and the three NULL kinds (compared on every row of every case)'],
+    },
+    'C13': {
+        "projection": 'per-message log with Consume markers; every CopyReader.Read result with payload',
+        "rule": 'ALL COPY sub-histories of length 3 (quick) / 4 (thorough) over {CopyData x 4 payloads (incl. empty, limit-sized), CopyDone, CopyFail, Flush, Sync, Query, Terminate, oversized CopyData, CopyFail without NUL} x handler variants (reads 0..5, stop/continue, return nil/last/own error, complete after) x {simple, extended} (exhaustive), zero columns, stray COPY messages, random' + "; non-trivial = the client sent more than its first packet or a callback ran; distinct = by configuration and client byte stream",
+        "exhaustive": True,
+        "assumptions": ["user callbacks are scripts (handler programs, parser table, validator/middleware/hook outcomes); transport writes succeed while the connection is open; no concurrent Close"],
+        "trusted": ['pgx v5.4.3 pgtype.Map.Encode modelled by coq/Wire/Codec.v for bool/int2/4/8/text/varchar/bytea and the three NULL kinds (compared on every row of every case)'],
+    },
+    'C19': {
+        "projection": 'log of one connection (lock-step and pipelined delivery)',
+        "rule": '0..5 middlewares x failure at every position x terminate hook {absent, ok, failing} x 4 command histories x 4 continuations pipelined behind Terminate (incl. a second Terminate), each pipelined in one segment and lock-step; random histories with Terminate inside skip-to-Sync mode' + "; non-trivial = the client sent more than its first packet or a callback ran; distinct = by configuration and client byte stream",
+        "exhaustive": False,
+        "assumptions": ["user callbacks are scripts (handler programs, parser table, validator/middleware/hook outcomes); transport writes succeed while the connection is open; no concurrent Close"],
+        "trusted": ['pgx v5.4.3 pgtype.Map.Encode modelled by coq/Wire/Codec.v for bool/int2/4/8/text/varchar/bytea and the three NULL kinds (compared on every row of every case)'],
+    },
 }
